@@ -4,20 +4,16 @@ import (
 	"fmt"
 	"time"
 
-	sdkmath "cosmossdk.io/math"
-
 	sdk "github.com/cosmos/cosmos-sdk/types"
 
 	cmttypes "github.com/cometbft/cometbft/types"
 
-	transfertypes "github.com/cosmos/ibc-go/v11/modules/apps/transfer/types"
 	clienttypes "github.com/cosmos/ibc-go/v11/modules/core/02-client/types"
 	clientv2types "github.com/cosmos/ibc-go/v11/modules/core/02-client/v2/types"
 	connectiontypes "github.com/cosmos/ibc-go/v11/modules/core/03-connection/types"
 	channeltypes "github.com/cosmos/ibc-go/v11/modules/core/04-channel/types"
 	channeltypesv2 "github.com/cosmos/ibc-go/v11/modules/core/04-channel/v2/types"
 	commitmenttypes "github.com/cosmos/ibc-go/v11/modules/core/23-commitment/types"
-	host "github.com/cosmos/ibc-go/v11/modules/core/24-host"
 	ibctm "github.com/cosmos/ibc-go/v11/modules/light-clients/07-tendermint"
 	ibctesting "github.com/cosmos/ibc-go/v11/testing"
 	ibcmock "github.com/cosmos/ibc-go/v11/testing/mock"
@@ -1002,82 +998,6 @@ func (s *Sim) opGateV2(sub *Subject) bool {
 	return true
 }
 
-func (s *Sim) opGateSend() bool {
-	acct := s.signer()
-	msg := transfertypes.NewMsgTransfer(s.P.EndpointA.ChannelConfig.PortID, s.P.EndpointA.ChannelID, sdk.NewCoin(sdk.DefaultBondDenom, sdkmath.NewInt(int64(1+s.R.Intn(50)))),
-		acct.SenderAccount.GetAddress().String(), s.B.Addr(1).String(), clienttypes.NewHeight(1, 1_000_000), 0, "")
-	s.deliverAs(&opMeta{kind: "gate", gate: "SendPacket", uses: []*Subject{s.realSubj}}, acct, msg)
-	return true
-}
-
-// feedInbound makes B really send a packet to A and (when possible) relays B's header so
-// that the commitment becomes provable at a stored consensus height.
-func (s *Sim) feedInbound() bool {
-	if s.bHalted {
-		return false
-	}
-	acct := s.B.Acct(1 + s.R.Intn(8))
-	msg := transfertypes.NewMsgTransfer(s.P.EndpointB.ChannelConfig.PortID, s.P.EndpointB.ChannelID, sdk.NewCoin(sdk.DefaultBondDenom, sdkmath.NewInt(int64(1+s.R.Intn(50)))),
-		acct.SenderAccount.GetAddress().String(), s.A.Addr(2).String(), clienttypes.NewHeight(1, 1_000_000), 0, "")
-	o := s.B.Deliver(acct, msg)
-	if !o.OK() {
-		s.tr("B could not send: %s", short(o.Log))
-		return false
-	}
-	pkt, err := ibctesting.ParsePacketFromEvents(o.Res.Events)
-	if err != nil {
-		return false
-	}
-	// commitment is in B's state after block o.Height, i.e. in the app hash of header o.Height+1
-	s.inbound = append(s.inbound, inboundPkt{pkt: pkt, provableAt: H{1, uint64(o.Height) + 1}})
-	s.tr("B sent packet seq %d at B height %d", pkt.Sequence, o.Height)
-	if s.active(s.realSubj) {
-		s.opHonestReal()
-	}
-	return true
-}
-
-func (s *Sim) opGateRecv() bool {
-	sub := s.realSubj
-	p := sub.Prev
-	// choose a really sent, not yet received packet and a stored consensus height that proves it
-	for tries := 0; tries < 4 && len(s.inbound) > 0; tries++ {
-		i := s.R.Intn(len(s.inbound))
-		ip := s.inbound[i]
-		var hs []H
-		for _, h := range p.Heights() {
-			if h.R == 1 && !h.Less(ip.provableAt) && h.N <= uint64(s.B.App.LastBlockHeight())+1 {
-				if c := p.ConsDec[h]; c != nil && s.isRealRoot(h, c) {
-					hs = append(hs, h)
-				}
-			}
-		}
-		if len(hs) == 0 {
-			continue
-		}
-		h := kit.Pick(s.R, hs)
-		var proof []byte
-		var ph clienttypes.Height
-		if err := kit.Try(func() {
-			proof, ph = s.B.QueryProofAtHeight(host.PacketCommitmentKey(ip.pkt.SourcePort, ip.pkt.SourceChannel, ip.pkt.Sequence), int64(h.N)-1)
-		}); err != nil {
-			s.tr("proof query failed: %v", err)
-			return false
-		}
-		acct := s.signer()
-		msg := channeltypes.NewMsgRecvPacket(ip.pkt, proof, ph, acct.SenderAccount.GetAddress().String())
-		o := s.deliverAs(&opMeta{kind: "gate", gate: "RecvPacket", uses: []*Subject{sub}}, acct, msg)
-		if o.OK() {
-			s.inbound = append(s.inbound[:i], s.inbound[i+1:]...)
-		}
-		return true
-	}
-	if len(s.inbound) < 3 {
-		return s.feedInbound()
-	}
-	return false
-}
-
 // isRealRoot: was the consensus state at h produced by B's real header (the harness only
 // proves packets against real roots)?
 func (s *Sim) isRealRoot(h H, c *ibctm.ConsensusState) bool {
@@ -1166,7 +1086,7 @@ func (s *Sim) Step(pr Profile) {
 		{pr.GateInit, on(anyS, s.opGateInit)},
 		{pr.GateHandshake, on(anyS, s.opGateChanInit)},
 		{pr.GateV2, on(anyS, s.opGateV2)},
-		{pr.GateRecv, s.opGateRecv},
+		{pr.GateRecv, s.opGateProof},
 		{pr.GateSend, s.opGateSend},
 		{pr.HonestReal, func() bool {
 			if s.bHalted {
